@@ -427,9 +427,15 @@ func (m *Machine) tick() (bool, error) {
 		v := m.popValue()
 		switch v := v.(type) {
 		case machine.Asset:
-			m.Balances[a][v] = machine.Zero
+			// an account no send takes from has no tracked balance: nothing to protect
+			if accBalances, ok := m.Balances[a]; ok {
+				accBalances[v] = machine.Zero
+			}
 		case machine.Monetary:
-			m.Balances[a][v.Asset] = m.Balances[a][v.Asset].Sub(v.Amount)
+			// an account no send takes from has no tracked balance: nothing to protect
+			if accBalances, ok := m.Balances[a]; ok {
+				accBalances[v.Asset] = accBalances[v.Asset].Sub(v.Amount)
+			}
 		default:
 			panic(fmt.Errorf("invalid value type: %T", v))
 		}
